@@ -206,6 +206,9 @@ func runC06(c *Check) {
 	c.Min("R3", "containsHash(conflict, unconfirmed) guards", nGuard, 1)
 
 	c.ruleConflictingIteratesCopy("R7")
+	c.ruleConflictingRemovesEach("R4")
+	c.ruleLoopVisitsAll("R9", "spynode.(*Node).ProcessBlock", isConfl, "conflicting-tx",
+		"the loop over the conflicting txs can be left early without an error (break): the conflicts after that point get no cancelled update although they were evicted from double-spend tracking")
 
 	// R6 (added after seeded round 2)
 	c.ruleConflictingForEveryUnseenTx("R6", "R8")
